@@ -25,7 +25,7 @@ EXPLANATION = (
     "the air space; R18.4 the load is accounted BEFORE the frame is handed to the receiver (sibling agreement between "
     "Link.transmit_frame and AirSpace.transmit) - otherwise a reply sent during delivery is admitted against a stale "
     "load - and the accounted amount is the same frame.size_Mbits the admission test used. R18.5 the numeric settings this property depends on are never tested by truthiness (`x or default`, `if x:`) - 0 is a legal value for them. "
-    "R18.6 every interface class answers the constant True from receive_frame once it has handed the frame to its node (the link rolls its load back on False). "
+    "R18.6 every interface class answers the constant True from receive_frame once it has handed the frame to its node (the link rolls its load back on False). R18.7 the wireless load table (AirSpace.bandwidth_load) and the table the receivers of a transmission are looked up in are keyed by the same attribute of the sender frequency, in can_transmit_frame and transmit alike (one load bucket per delivery channel). "
     "NOT decided: the numeric "
     "bound itself over all traffic patterns (runtime arithmetic)."
 )
@@ -307,7 +307,50 @@ def r18_6(ctx: Ctx) -> None:
     ctx.floor("R18.6", "interface classes with their own receive_frame", n, 3)
 
 
+def r18_7(ctx: Ctx) -> None:
+    """The load bucket is the channel: the key of AirSpace.bandwidth_load is the same quantity as the key under which the receivers
+    of a transmission are looked up (wireless_interfaces_by_frequency).  With two different key families (say load by frequency *name*,
+    delivery by Hz) two names of one frequency each get a bucket of their own and the channel carries twice its capacity although every
+    admission test passes."""
+    ix = ctx.ix
+    ctx.rule("R18.7", "the wireless load table and the receiver table are keyed by the same quantity of the sender's frequency, in "
+                      "admission (can_transmit_frame) and accounting (transmit) alike")
+
+    def keys_of(fn, table: str) -> List[ast.AST]:
+        ld = LocalDefs(fn.node)
+        out: List[ast.AST] = []
+        is_tab = lambda e: unparse(ld.expand(e)) == f"self.{table}"  # noqa: E731
+        for x in ast.walk(fn.node):
+            if isinstance(x, ast.Subscript) and is_tab(x.value):
+                out.append(ld.expand(x.slice))
+            elif isinstance(x, ast.Compare) and len(x.ops) == 1 and isinstance(x.ops[0], (ast.In, ast.NotIn)) and is_tab(x.comparators[0]):
+                out.append(ld.expand(x.left))
+            elif isinstance(x, ast.Call) and isinstance(x.func, ast.Attribute) and x.func.attr in ("get", "setdefault", "pop") \
+                    and is_tab(x.func.value) and x.args:
+                out.append(ld.expand(x.args[0]))
+        return out
+
+    def family(fn, e: ast.AST) -> str:
+        if isinstance(e, ast.Attribute):
+            return e.attr
+        raise AnalysisError(f"R18.7: key `{unparse(e)[:60]}` of a frequency-indexed table in {fn.short} is not an attribute of the frequency")
+
+    adm, tx = ix.method("AirSpace.can_transmit_frame"), ix.method("AirSpace.transmit")
+    load_keys = [(f, k) for f in (adm, tx) for k in keys_of(f, "bandwidth_load")]
+    recv_keys = [(tx, k) for k in keys_of(tx, "wireless_interfaces_by_frequency")]
+    ctx.floor("R18.7", "uses of the load table in admission and accounting", len(load_keys), 2)
+    ctx.floor("R18.7", "look-ups of the receivers of a transmission", len(recv_keys), 1)
+    fam_recv = sorted({family(f, k) for f, k in recv_keys})
+    for f, k in load_keys:
+        fam = family(f, k)
+        ctx.record("R18.7", ctx.key(f, f"load bucket key `{unparse(k)[:60]}`"), f.loc(k), [fam] == fam_recv,
+                   f"load is kept per `{fam}`, receivers are found per {fam_recv}" + ("" if [fam] == fam_recv else
+                   ": frequencies that are one channel for delivery have separate load buckets (or the reverse), so the data sent on a "
+                   "channel in a tick is not bounded by its capacity"))
+
+
 def check(ctx: Ctx) -> None:
+    r18_7(ctx)
     r18_1(ctx)
     r18_2(ctx)
     r18_3(ctx)
